@@ -6,7 +6,6 @@ package diff
 // Table index rows all have the arity of the primary key (rectangular), both indices the same arity.
 //@ func findOverlappingBlocks
 //@   props C04
-//@   loop-candidates
 //@   requires 0 <= off1 && off1 < len(tblIdx1) && 0 <= prevEnd && prevEnd <= len(tblIdx2)
 //@   requires forall(a, 0, len(tblIdx1), forall(c, 0, len(tblIdx2), len(tblIdx1[a]) == len(tblIdx2[c])))
 //@   ensures [C04] 0 <= start && start <= end && end <= len(tblIdx2)
